@@ -31,3 +31,11 @@ site('pp.c', 'define', 'error', '__VA_ARGS__ cannot be used as a macro parameter
      T('pp', '#define M_(__VA_ARGS__) 1'), T('pp', '#define M_(a, __VA_ARGS__) a'), T('pp', '#define M_(__VA_ARGS__, ...) 1'))
 more('expr.c', 'inttype', 'error', "invalid integer constant suffix '%s'",
      T('expr', '1lL', "'lL'"), T('expr', '1Ll', "'Ll'"), T('expr', '0x1uLl', "'uLl'"), T('expr', '07lLU', "'lLU'"))
+
+# round 13: a second definition after an inline definition (the first is not emitted, but it is a definition all the same),
+# three storage-class specifiers, a conditional with exactly one void arm, a surplus empty macro argument
+more('decl.c', 'decl', 'error', "function '%s' redefined",
+     T('fdecl', 'inline int f_(void) { return 1; } inline int f_(void) { return 2; }', "'f_'"),
+     T('fdecl', 'inline int f_(void) { return 1; } int f_(void) { return 2; }', "'f_'"),
+     T('fdecl', 'static inline int f_(void) { return 1; } static inline int f_(void) { return 2; }', "'f_'"),
+     T('fdecl', 'extern inline int f_(void) { return 1; } inline int f_(void) { return 2; }', "'f_'"))
